@@ -450,6 +450,7 @@ theorem step_inv (hs : SlashCodeOk) (hg : GuardCodeOk) (s : State) (op : Op) (hi
   | withdraw o => exact withdraw_inv s o hi
   | fund o amt => exact inv_same s _ hi rfl rfl rfl rfl
   | mint o amt => exact inv_same s _ hi rfl rfl rfl rfl
+  | tick dt => exact inv_same s _ hi rfl rfl rfl rfl
   | unbond o => exact unbond_inv s o hi
   | mkbatch => simp only [step, mkBatch]; split <;> first | exact hi | exact inv_same s _ hi rfl rfl rfl rfl
   | mkcall => exact inv_same s _ hi rfl rfl rfl rfl
